@@ -18,7 +18,7 @@ from .. import core, symla
 from ..symla import SE, Undecided, compare, dense_det, dense_inv, eye, mat, orth, posvec, shimmed, sym, to_obj, tri, vec, ufunc
 from .c10 import load as load_matrices
 
-DIM = 2
+DIM = int(__import__("os").environ.get("VF_DIM", "2"))  # traced dimension (thorough tier: 3)
 
 
 def load_systems():
